@@ -163,6 +163,328 @@ def raw_space() -> typing.Iterator[typing.Tuple[dict, bool]]:
                 yield {"oracle": "lexer", "space": "raw", "parts": parts, "ws": list(ws), "le": le}, core
 
 
+# ---------------------------------------------------------------------------------------------------- space "history"
+# HISTORIES of compilations in one process: [event ; ... ; ordinary template].  An event is a template given to the
+# bundled engine before the ordinary one: refused by the lexer (unterminated raw / block / variable / comment section,
+# bad character, bad string), refused by the parser (unknown tag, missing / mismatched / stray end tag, bad expression),
+# failing while it renders, rendered successfully, or a token stream that is abandoned after k tokens - each with and
+# without the auto-indent marker.  The ordinary template (no marker) that follows must render as stock Jinja2 renders it:
+# lexers are memoised per option set and shared by all Environments of the process, so anything an earlier template
+# leaves behind in them shows in the next one.  Every history runs in a forked child (nothing leaks between histories
+# or into the other spaces); a disagreement is confirmed from its recorded case in a fresh interpreter.
+class Event(typing.NamedTuple):
+    name: str
+    cls: str  # class of the event (goes into the violation signature)
+    src: str
+    abandon_after: int = 0  # > 0: the template is only tokenised and the stream dropped after that many tokens
+
+
+_MRAW_OK = "struct {\n    {%* raw %}\n{{a}}\n{{b}}\n{% endraw %}\n}\n"
+_MFOR_OK = "  {%* for i in l %}{{ i }}\n{% endfor %}"
+HIST_EVENTS: typing.List[Event] = [
+    # refused while lexing
+    Event("raw_open", "unterminated_raw", "x\n{% raw %}\n{{ a }}\n"),
+    Event("mraw_open_4", "unterminated_marked_raw", "void f() {\n    {%* raw %}\n{{ forgot the endraw }}\n}\n"),
+    Event("mraw_open_tab", "unterminated_marked_raw", "\t{%* raw %}r\n"),
+    Event("mraw_open_0", "unterminated_marked_raw", "{%* raw %}\nr\n"),
+    Event("mraw_open_bare", "unterminated_marked_raw", "  {%* raw %}"),
+    Event("mraw_open_rctl", "unterminated_marked_raw", "  {%* raw -%}\n  r"),
+    Event("mraw_closed_then_open", "unterminated_marked_raw", "  {%* raw %}a{% endraw %}\n\t{%* raw %}b"),
+    Event("block_open", "unterminated_block", "a {% if b "),
+    Event("mblock_open", "unterminated_marked_block", "a\n  {%* if b "),
+    Event("var_open", "unterminated_variable", "a {{ v "),
+    Event("mvar_open", "unterminated_marked_variable", "a\n  {{* v "),
+    Event("comment_open", "unterminated_comment", "a {# c "),
+    Event("mcomment_open", "unterminated_marked_comment", "a\n  {#* c "),
+    Event("bad_char", "lexer_error_in_tag", "{{ v ? }}"),
+    Event("mbad_char", "lexer_error_in_marked_tag", "  {{* v ? }}"),
+    Event("bad_string", "lexer_error_in_tag", "{{ 'abc }}"),
+    Event("mbad_string", "lexer_error_in_marked_tag", "  {%* if 'abc %}x{% endif %}"),
+    # refused by the parser (the token stream is left half consumed)
+    Event("unknown_tag", "unknown_tag", "t {% nosuchtag %} u\n"),
+    Event("munknown_tag", "unknown_marked_tag", "t\n  {%* nosuchtag %} u\n"),
+    Event("missing_end", "missing_end_tag", "{% for i in l %}x\n"),
+    Event("mmissing_end", "missing_end_tag_of_marked_block", "  {%* for i in l %}x\n"),
+    Event("mmismatched_end", "missing_end_tag_of_marked_block", "  {%* if b %}x\n{% endfor %}\n"),
+    Event("mnested_open", "missing_end_tag_of_marked_block", "  {%* for i in l %}\n    {{* m }}\n"),
+    Event("stray_end", "stray_end_tag", "x{% endif %}"),
+    Event("mstray_end", "stray_marked_end_tag", "  {%* endif %}"),
+    Event("bad_expr", "bad_expression", "{{ 1 + }}"),
+    Event("mbad_expr", "bad_marked_expression", "  {{* 1 + }}"),
+    Event("mraw_ok_then_unknown", "unknown_tag_after_marked_raw", "  {%* raw %}\nr\n{% endraw %}\n{% nosuchtag %}"),
+    Event("mraw_empty_then_var_open", "unterminated_variable_after_marked_raw", "  {%* raw %}{% endraw %}{{ "),
+    Event("mraw_in_open_block", "missing_end_tag_around_marked_raw", "{% if b %}\n  {%* raw %}\nr\n{% endraw %}\n"),
+    # compiled, failing while rendering
+    Event("mrender_undefined", "marked_expression_fails_rendering", "  {{* nope.x.y }}"),
+    Event("mrender_in_block", "marked_block_fails_rendering", "  {%* for i in l %}{{ i }}\n{{ nope.x.y }}{% endfor %}"),
+    Event("minclude_notfound", "marked_block_fails_rendering", "  {%* include 'nope' %}"),
+    # rendered successfully
+    Event("ok_mraw", "marked_raw_rendered", _MRAW_OK),
+    Event("ok_mraw_empty", "marked_raw_rendered", "  {%* raw %}{% endraw %}"),
+    Event("ok_mfor", "marked_block_rendered", _MFOR_OK),
+    Event("ok_mexpr", "marked_expression_rendered", "a\n\t{{* m }}\n"),
+    Event("ok_raw", "raw_rendered", "{% raw %}\nr\n{% endraw %}"),
+    # token streams of well-formed templates, abandoned
+    Event("abandon_mraw_1", "token_stream_abandoned_in_marked_raw", _MRAW_OK, 1),
+    Event("abandon_mraw_2", "token_stream_abandoned_in_marked_raw", _MRAW_OK, 2),
+    Event("abandon_mraw_3", "token_stream_abandoned_in_marked_raw", _MRAW_OK, 3),
+    Event("abandon_mfor_1", "token_stream_abandoned_in_marked_block", _MFOR_OK, 1),
+    Event("abandon_mfor_3", "token_stream_abandoned_in_marked_block", _MFOR_OK, 3),
+    Event("abandon_raw_1", "token_stream_abandoned_in_raw", "  {% raw %}\nr\n{% endraw %}\n", 1),
+]
+_EVENT = {e.name: e for e in HIST_EVENTS}
+HIST_ORDINARY: typing.List[typing.Tuple[str, str]] = [
+    ("o_text_expr", "alpha\nbeta {{ v }}\ngamma\n"),
+    ("o_for_first", "{% for i in l %}\nline {{ i }}\n{% endfor %}\ntail\n"),
+    ("o_raw_first", "{% raw %}\n{{ not an expression }}\n{% endraw %}\nafter\n"),
+    ("o_comment_first", "{# comment #}\nfirst\n  second\n"),
+    ("o_one_line", "one line"),
+    ("o_leading_blank_lines", "\n\nlead\n{{ n }}"),
+    ("o_indented", "  indented\n\tmore\n{{ n }}\n"),
+    ("o_trailing_blank_lines", "text\n\n"),
+    ("o_expr_only", "{{ v }}"),
+    ("o_include", "{% include 'inc' %}tail\nend"),
+    ("o_if_else", "{% if b %}\n  yes\n{% else %}\n  no\n{% endif %}\n"),
+    ("o_blanks_only", " \n\t\n"),
+    ("o_empty", ""),
+]
+_ORD = dict(HIST_ORDINARY)
+HIST_MODES = ("same_env", "new_env", "other_options_env")
+HIST_FLAGS_CORE = ("plain", "trim+lstrip", "keep_trailing_newline")
+_OTHER_FLAGS = {f: list(tw.FLAGS)[(i + 1) % len(tw.FLAGS)] for i, f in enumerate(tw.FLAGS)}
+_DEMARK = (("{%*", "{%"), ("{{*", "{{"), ("{#*", "{#"))
+
+
+def history_space() -> typing.Iterator[typing.Tuple[dict, bool]]:
+    """(chain, in the quick core?). A chain = one sequence of <=2 events x Environment flags x line ending x sharing
+    mode; it stands for the histories [events ; o] of every ordinary template o."""
+    names = [e.name for e in HIST_EVENTS]
+    for ev in names:
+        for flags in tw.FLAGS:
+            for le in tw.LINE_ENDINGS:
+                for mode in HIST_MODES:
+                    core = flags in HIST_FLAGS_CORE and le == "lf" and mode != "other_options_env"
+                    yield {"oracle": "lexer", "space": "history", "events": [ev], "flags": flags, "le": le, "mode": mode}, core
+    for pair in itertools.product(names, repeat=2):
+        for flags in tw.FLAGS:
+            for mode in HIST_MODES[:2]:
+                yield {"oracle": "lexer", "space": "history", "events": list(pair), "flags": flags, "le": "lf", "mode": mode}, False
+
+
+def _hist_env(flags: str, le: str) -> typing.Any:
+    """A NEW Environment of the bundled engine (never the cached ones of c19_twin)."""
+    mod = tw.engine_module("bundled")
+    env = mod.Environment(loader=mod.DictLoader({k: tw.with_le(v, le) for k, v in tw.LOADER_LF.items()}), **tw.FLAGS[flags])
+    env.c19_markup = tw.engine_markup("bundled")
+    return env
+
+
+def _hist_step(env: typing.Any, name: str, le: str) -> tw.Outcome:
+    """Run one step (an event or an ordinary template) in the bundled engine."""
+    if name in _ORD:
+        return tw.render_env(env, tw.with_le(_ORD[name], le), [CTXS[0]])[0]
+    ev = _EVENT[name]
+    if not ev.abandon_after:
+        return tw.render_env(env, tw.with_le(ev.src, le), [CTXS[0]])[0]
+    try:
+        stream = env.lexer.tokenize(tw.with_le(ev.src, le))  # a TokenStream: holds one token already
+        for _ in range(ev.abandon_after - 1):
+            next(stream)
+        del stream
+    except Exception as e:  # pylint: disable=broad-except
+        return ("err", tw.family(e))
+    return ("ok", "<abandoned>")
+
+
+def history_run(case: dict) -> typing.Dict[str, typing.Any]:
+    """Runs, IN THIS PROCESS, the steps case['steps'] (events and ordinary templates) and then the ordinary template
+    case['ordinary'] in the bundled engine; `want` is stock's rendering of the ordinary template."""
+    flags, le, mode = case["flags"], case["le"], case["mode"]
+    oflags = _OTHER_FLAGS[flags] if mode == "other_options_env" else flags  # options of the ordinary templates' Environment
+    want = tw.render("stock", oflags, le, _ORD[case["ordinary"]], [CTXS[0]])[0]
+    shared = _hist_env(flags, le)
+
+    def env_for(name: str) -> typing.Any:
+        if mode == "same_env":
+            return shared  # one Environment object for everything
+        if mode == "new_env":
+            return _hist_env(flags, le)  # a new Environment with equal options for every step
+        return shared if name in _EVENT else _hist_env(oflags, le)  # events share one, ordinary ones: other options
+
+    steps = [_hist_step(env_for(name), name, le) for name in case["steps"]]
+    got = _hist_step(env_for(case["ordinary"]), case["ordinary"], le)
+    return {"steps": steps, "got": got, "want": want}
+
+
+def _forked(fn: typing.Callable[[], typing.Any]) -> typing.Any:
+    """fn() evaluated in a forked child (state the bundled engine keeps in the process dies with the child)."""
+    import os
+    import pickle
+
+    r, w = os.pipe()
+    pid = os.fork()
+    if pid == 0:
+        code = 0
+        try:
+            os.close(r)
+            try:
+                payload = pickle.dumps(("ok", fn()))
+            except BaseException as e:  # pylint: disable=broad-except
+                payload = pickle.dumps(("exc", repr(e)))
+            with os.fdopen(w, "wb") as f:
+                f.write(payload)
+        except BaseException:  # pylint: disable=broad-except
+            code = 3
+        finally:
+            os._exit(code)
+    os.close(w)
+    with os.fdopen(r, "rb") as f:
+        data = f.read()
+    _, status = os.waitpid(pid, 0)
+    if status != 0 or not data:
+        raise HarnessError(f"history child failed (status {status})")
+    tag, val = pickle.loads(data)
+    if tag != "ok":
+        raise HarnessError(f"history child raised {val}")
+    return val
+
+
+def _fresh_interpreter(case: dict) -> typing.Dict[str, typing.Any]:
+    """history_run(case) in a new Python process (nothing at all has been compiled there before)."""
+    import json
+    import os
+    import subprocess
+    import sys
+
+    from vf.core import VERIF
+
+    code = (
+        "import sys, json; sys.path.insert(0, sys.argv[1]); from vf import c19_lexer as lx; "
+        "print(json.dumps(lx.history_run(json.loads(sys.stdin.read()))))"
+    )
+    p = subprocess.run(
+        [sys.executable, "-c", code, str(VERIF)],
+        input=json.dumps(case),
+        capture_output=True,
+        text=True,
+        env=dict(os.environ),
+        cwd=str(VERIF),
+        timeout=300,
+        check=False,
+    )
+    if p.returncode != 0:
+        raise HarnessError(f"fresh interpreter for a history case failed: {p.stderr[-400:]}")
+    res = json.loads(p.stdout.strip().splitlines()[-1])
+    return {k: (tuple(v) if k != "steps" else [tuple(x) for x in v]) for k, v in res.items()}
+
+
+def _hist_sig(case: dict, kind: str, no_history_got: tw.Outcome, want: tw.Outcome) -> dict:
+    events = [n for n in case["steps"] if n in _EVENT]
+    return {
+        "oracle": "lexer",
+        "space": "history",
+        "kind": kind,
+        "feature": "after:" + "+".join(_EVENT[n].cls for n in events)
+        + (";and_earlier_ordinary_templates" if len(events) != len(case["steps"]) else ""),
+        "mode": case["mode"],
+        "cause": "state_left_by_earlier_templates" if compare(no_history_got, want) is None else "also_without_history",
+    }
+
+
+def _hist_verdict(case: dict, run: typing.Callable[[dict], dict]) -> typing.Optional[typing.Tuple[dict, str]]:
+    res = run(case)
+    kind = compare(res["got"], res["want"])
+    if kind is None:
+        return None
+    alone = run({**case, "steps": []})
+    sig = _hist_sig(case, kind, alone["got"], res["want"])
+    shown = [tw.with_le(_ORD[n] if n in _ORD else _EVENT[n].src, case["le"]) for n in case["steps"]]
+    what = (
+        f"history {list(zip(case['steps'], shown, res['steps']))!r} then ordinary template "
+        f"{tw.with_le(_ORD[case['ordinary']], case['le'])!r} [{case['flags']}, {case['mode']}]: bundled {res['got']!r} vs "
+        f"stock {res['want']!r} (bundled without the history: {alone['got']!r})"
+    )
+    return sig, what
+
+
+def history_eval_case(case: dict) -> typing.Optional[typing.Tuple[dict, str]]:
+    """Confirmation / replay: the recorded history in a fresh interpreter."""
+    return _hist_verdict(case, _fresh_interpreter)
+
+
+def _chain_cases(chain: dict) -> typing.List[dict]:
+    base = {k: chain[k] for k in ("oracle", "space", "flags", "le", "mode")}
+    return [{**base, "steps": list(chain["events"]), "ordinary": o} for o, _ in HIST_ORDINARY]
+
+
+def history_work(chains: typing.List[dict]) -> dict:
+    bag = Bag()
+    st: typing.Dict[str, int] = {}
+    samples: typing.List[dict] = []
+    confirmed = 0
+
+    def bump(k: str, n: int = 1) -> None:
+        st[k] = st.get(k, 0) + n
+
+    for chain in chains:
+        cases = _chain_cases(chain)
+        results = _forked(lambda cs=cases: [history_run(c) for c in cs])  # [e..; o1; e..; o2; ...] in ONE child
+        bump("hist_chains")
+        for e, oc in zip(chain["events"], results[0]["steps"]):
+            bump("hist_event_runs")
+            bump("hist_events_refused_or_failed_in_bundled" if oc[0] == "err" else "hist_events_completed_in_bundled")
+        done: typing.List[str] = []
+        for case, res in zip(cases, results):
+            bump("hist_histories")
+            bump("hist_stock_rendered" if res["want"][0] == "ok" else "hist_stock_raised")
+            if res["want"][0] == "ok" and res["want"][1] != _ORD[case["ordinary"]]:
+                bump("hist_nontrivial")
+            prefix = list(done)
+            done += case["steps"] + [case["ordinary"]]
+            if compare(res["got"], res["want"]) is None:
+                continue
+            bump("hist_disagreements")
+            if confirmed >= 6:
+                sig = _hist_sig(case, compare(res["got"], res["want"]) or "", res["want"], res["want"])
+                sig = {**sig, "feature": "<not minimised, see the minimised signatures>", "cause": "<not examined>"}
+                bag.add(sig, case, f"history {case['steps']} then {case['ordinary']} [{case['flags']}, {case['mode']}]: bundled {res['got']!r} vs stock {res['want']!r}")
+                continue
+            confirmed += 1
+            run = lambda c: _forked(lambda: history_run(c))  # noqa: E731
+            ev = _hist_verdict(case, run)
+            if ev is None:  # needs what came before it in the chain: record the whole prefix
+                case = {**case, "steps": prefix + case["steps"]}
+                ev = _hist_verdict(case, run)
+                if ev is None:
+                    raise HarnessError(f"history disagreement did not reproduce in a child of its own: {case}")
+            else:
+                changed = len(case["steps"]) > 1
+                while changed:  # drop events while the disagreement persists
+                    changed = False
+                    for k in range(len(case["steps"])):
+                        c = {**case, "steps": case["steps"][:k] + case["steps"][k + 1 :]}
+                        ev2 = _hist_verdict(c, run) if c["steps"] else None
+                        if ev2 is not None:
+                            case, ev, changed = c, ev2, len(c["steps"]) > 1
+                            break
+            bag.add(ev[0], case, ev[1])
+        if len(samples) < 1 and len(chain["events"]) == 2 and chain["mode"] == "new_env":
+            samples.append({**cases[0], "event_sources": [_EVENT[n].src for n in chain["events"]], "template": _ORD[cases[0]["ordinary"]]})
+    return {"bag": bag, "st": st, "ledger": set(), "samples": samples}
+
+
+def history_oracle_stats() -> typing.Dict[str, int]:
+    """Oracle side (vacuity guards): what STOCK makes of every event template with the markers taken out."""
+    out = {"hist_event_templates_stock_refuses_demarked": 0, "hist_event_templates_stock_renders_demarked": 0}
+    for e in HIST_EVENTS:
+        src = e.src
+        for a, b in _DEMARK:
+            src = src.replace(a, b)
+        r = tw.render("stock", "plain", "lf", src, [CTXS[0]])[0]
+        out["hist_event_templates_stock_refuses_demarked" if r[0] == "err" else "hist_event_templates_stock_renders_demarked"] += 1
+    return out
+
+
 # ---------------------------------------------------------------------------------------------------- evaluation
 def case_source(case: dict) -> typing.Tuple[str, tw.Flags]:
     if case["space"] == "line":
@@ -252,6 +574,8 @@ def minimize(case: dict) -> dict:
 
 
 def eval_case(case: dict) -> typing.Optional[typing.Tuple[dict, str]]:
+    if case["space"] == "history":
+        return history_eval_case(case)
     v = judge(case)
     if v is None:
         return None
